@@ -4,7 +4,7 @@
 (* contracts (env TRACE), advances the ghost state of RoleTransfer.tla by   *)
 (* each recorded step and evaluates every monitor on it.  Violations are    *)
 (* collected (printed as VIOL lines), not merely "first rejected line";     *)
-(* after a violation the rest of that run is skipped (its ghost state is no *)
+(* after a violation of a property the monitors of that property are skipped (its ghost state is no *)
 (* longer meaningful) and validation resumes at the next reset event.       *)
 (* `cnt` counts, per monitor, the steps on which its antecedent held.       *)
 (***************************************************************************)
@@ -19,20 +19,19 @@ ToSet(s) == {s[i] : i \in DOMAIN s}
 Norm(ev) == [ev EXCEPT !.op = [op |-> ev.op.op, new |-> ev.op.new, until |-> ev.op.until,
                                 auth |-> ToSet(ev.op.auth), dt |-> ev.op.dt]]
 
-Init == l = 1 /\ g = GInit(NoOne) /\ dead = FALSE /\ cnt = [m \in Monitors |-> 0]
+Init == l = 1 /\ g = GInit(NoOne) /\ dead = {} /\ cnt = [m \in Monitors |-> 0]
 
 Report(ev, m) == PrintT(<<"VIOL", ToJson([run |-> ev.run, i |-> ev.i, line |-> l, mon |-> m,
-                                          prop |-> PropOf(m), key |-> Key(m, g, ev)])>>)
+                                          prop |-> PropOf(m), key |-> Key(m, g, ev), after |-> dead])>>)
 
 Next ==
   /\ l <= Len(Rec)
   /\ l' = l + 1
   /\ LET raw == Rec[l] IN
-     IF raw.op.op = "reset" THEN g' = GInit(raw.obs.holder) /\ dead' = FALSE /\ UNCHANGED cnt
-     ELSE IF dead THEN UNCHANGED <<g, dead, cnt>>
-     ELSE LET ev == Norm(raw)  f == Failing(g, ev) IN
+     IF raw.op.op = "reset" THEN g' = GInit(raw.obs.holder) /\ dead' = {} /\ UNCHANGED cnt
+     ELSE LET ev == Norm(raw)  f == {m \in Failing(g, ev) : PropOf(m) \notin dead} IN
           /\ \A m \in f : Report(ev, m)
-          /\ dead' = (f # {})
+          /\ dead' = dead \cup {PropOf(m) : m \in f}
           /\ g' = GNext(g, ev)
           /\ cnt' = [m \in Monitors |-> cnt[m] + IF Ante(m, g, ev) THEN 1 ELSE 0]
   /\ (l = Len(Rec) => PrintT(<<"DONE", l, ToJson(cnt')>>))
